@@ -175,7 +175,7 @@ def run_int(ctx):
   cfg = os.path.join(tlc.WORK, 'c09-int.cfg')
   os.makedirs(tlc.WORK, exist_ok=True)
   fams = '{"qassoc", "qnorm", "rotcomp", "tassoc", "dual", "cross", "wide"}'
-  tlc.write_cfg(cfg, constants={'Families': fams, 'NSample': 2000 if ctx.quick else 60000}, invariants=INT_INVS)
+  tlc.write_cfg(cfg, constants={'Families': fams, 'NSample': 2000 if ctx.quick else 60000, 'SeedBase': core.seed_base(ctx, 9)}, invariants=INT_INVS)
   dump = os.path.join(tlc.WORK, 'c09-int')
   res = tlc.run('SpatialAlgebra', cfg, name='c09-int', dump=dump, seed=ctx.seed + 5, expect_ok=True, coverage=True)
   tlc.require_coverage(res, ['Compute'], 'c09-int')
